@@ -44,6 +44,13 @@ Theorem replay_counts  :
 Proof. exact (EventsMatch.replay_counts ). Qed.
 Print Assumptions replay_counts.
 
+(* on the machine, at EVERY moment of a run: the depth is the number of evaluations begun and not yet finished *)
+Theorem depth_is_pending_count lim n prog stdin s :
+  msteps lim n (init prog stdin) = inl s ->
+  befores (rev (events (m_dbg s))) = (afters (rev (events (m_dbg s))) + depth (m_dbg s))%nat.
+Proof. exact (EventsMatch.depth_is_pending_count lim n prog stdin s). Qed.
+Print Assumptions depth_is_pending_count.
+
 (* on the machine: when a run ends (value or language error) exactly as many 'finished' events as 'about to evaluate' events were delivered *)
 Theorem finished_run_is_balanced lim n prog stdin s o :
   msteps lim n (init prog stdin) = inl s -> step_with lim s = inr o -> (exists v, o = ODone v) \/ (exists e, o = OErr e) ->
